@@ -197,10 +197,10 @@ def execute(case: dict[str, Any]) -> dict[str, Any]:
     env["VERIF_C20_PIDDIR"] = piddir
     fault = case.get("fault") or {}
     env["VERIF_C20_FAULT"] = json.dumps(fault) if fault.get("side") == "child" else ""
-    env["PATH"] = "/verif/bin:" + env.get("PATH", "")
+    env["PATH"] = str(core.VERIF / "bin") + ":" + env.get("PATH", "")
     try:
         proc = subprocess.run([sys.executable, "-m", "checks.c20", "--worker", json.dumps(case)], env=env, capture_output=True,
-                              text=True, timeout=HORIZON, cwd="/verif", stdin=subprocess.DEVNULL)
+                              text=True, timeout=HORIZON, cwd=str(core.VERIF), stdin=subprocess.DEVNULL)
     except subprocess.TimeoutExpired:
         _kill_runners(piddir)
         return {"hang": True}
